@@ -15,6 +15,7 @@ import (
 
 func init() {
 	registerRenderReplayer("C04/programs-enum", "C04/reserved-loop", "C04/random-programs")
+	registerTreeReplayer("C04/components")
 }
 
 // c04Simple is the alphabet of simple statements of the enumeration.
@@ -231,6 +232,63 @@ func TestC04_RandomPrograms(t *testing.T) {
 		}
 		if r, f := runRenderCase(c, cs); f != "" {
 			c.Fail(rt, failKind(r), cs, cs.Want, r, f)
+		}
+	})
+}
+
+// TestC04_Components: a component (and a slot body evaluated in it) is a block.
+func TestC04_Components(t *testing.T) {
+	c := harness.New(t, "C04", "components",
+		"template directories generated with the program generator of random-programs in which component uses appear at every nesting position: each use has a component file of its own that is a generated block (assignments and reads over {a, b, c, loop}, @if/@each/@for), 0..3 arguments named like the assignable names (same or different type as a visible namesake), optionally a placeholder and a slot body that is again a generated block, and the page goes on reading and assigning after the use; with and without an argument object. Expected rendering or error from the reference scope chain (the component's block encloses the caller's names; what it binds is gone after the use). Non-trivial: a component file or slot body that assigns a name which the page reads later, or an argument named like a visible name. Distinct by hash of files + data.")
+	defer c.Finish()
+	in := interp()
+	runRapid(t, c, 3000, 40000, func(rt *rapid.T) {
+		env := genProgEnv().Draw(rt, "data")
+		g := newProgGen(rt, env)
+		g.wIf, g.wLoop, g.wAssign, g.wCtl, g.wComp = 2, 2, 8, 0, 5
+		g.fewFailures = true
+		g.comps = refint.Files{}
+		page := g.block(3, false)
+		if g.Feat["component"] == 0 {
+			page = append(page, g.compStmt(2), tw.Text(";"))
+		}
+		// the page reads the names afterwards (mostly the ones it can see, so
+		// that a leak from a component shows as a changed value, sometimes an
+		// unbound one, so that a leak shows as a missing error)
+		unbound := rapid.IntRange(0, 7).Draw(rt, "readUnbound") == 0
+		for _, n := range assignNames {
+			if _, vis := g.visibleKind(n); vis || unbound {
+				page = append(page, tw.Text("|"), tw.Print(tw.Var(n)))
+				g.Feat["read"]++
+			}
+		}
+		files := g.comps
+		files["page"] = page
+		if le := refint.Validate(files); le != nil {
+			c.Class("harness:generated-tree-invalid:" + le.Why)
+			return
+		}
+		out, _ := in.RenderPage(files, "page", env.Model)
+		cs := treeCase{Files: printFiles(files, genLayout().Draw(rt, "layout")), Dir: "t", Ext: ".tw", Page: "page", Data: env.D, Want: wantFromOut(out)}
+		nt := g.Feat["nested-assign"] > 0 && g.Feat["read"] > 0 || g.Feat["arg-named-like-visible"] > 0
+		classes := []string{"outcome:" + out.St.String(), fmt.Sprintf("components:%d", min(g.Feat["component"], 4))}
+		for _, f := range []string{"slot-body", "arg-named-like-visible", "nested-assign-to-visible", "type-collision"} {
+			if g.Feat[f] > 0 {
+				classes = append(classes, "has:"+f)
+			}
+		}
+		if out.St == refint.Unspec {
+			classes = append(classes, "unspecified:"+firstWords(out.Why, 4))
+		}
+		if out.St == refint.Err {
+			classes = append(classes, "error:"+firstWords(out.Why, 3))
+		}
+		c.Case(nt, mustJSON(cs.Files)+mustJSON(env.D), classes...)
+		if nt {
+			c.Sample(cs.sample())
+		}
+		if r, f := runTreeCase(c, cs); f != "" {
+			c.Fail(rt, kindOf(f), cs, cs.Want, r, f)
 		}
 	})
 }
